@@ -129,7 +129,7 @@ def filter_pool():
             F('created', '=', '2020-01-07T00:00:00.123000Z'), F('modified', '<=', '2020-01-06T23:59:59.9999Z'),
             F('confidence', '=', 0), F('confidence', '>', 10), F('confidence', '<=', 0), F('confidence', 'in', [0, 50]), F('confidence', '!=', 50), F('confidence', '>=', 50.0),
             F('revoked', '=', False), F('revoked', '!=', False), F('revoked', 'in', [True]), F('name', '=', ''), F('name', '!=', ''), F('name', 'in', ''), F('aliases', '=', 'x'), F('aliases', '!=', 'x'),
-            F('labels', '=', 'a'), F('labels', 'contains', 'a'), F('labels', 'in', ['b', 'z']), F('labels', '!=', 'a'),
+            F('labels', '=', 'a'), F('labels', '=', 'b'), F('labels', 'contains', 'a'), F('labels', 'in', ['b', 'z']), F('labels', '!=', 'a'),
             F('external_references.source_name', '=', 'src'), F('external_references.external_id', '=', 'e1'), F('external_references.url', '!=', 'zzz'),
             F('hashes.MD5', '=', 'a' * 32), F('source_ref', '=', ID('identity', 1)), F('relationship_type', 'in', ['uses', 'x']), F('nonexistent', '=', 1), F('is_family', '=', False)]
     return pool
@@ -184,7 +184,7 @@ def run(chk):
             n = 3 if chk.tier == 'thorough' else 2
             for k in range(1, n + 1):
                 combos = list(itertools.combinations(range(len(pool)), k))
-                if k == 2 and chk.tier == 'quick': combos = [c for i, c in enumerate(combos) if i % 3 == chk.seed % 3]
+                if k == 2 and chk.tier == 'quick': combos = [c for i, c in enumerate(combos) if i % 3 == chk.seed % 3 or pool[c[0]].property == pool[c[1]].property]       # pairs on one property always
                 if k == 3: combos = [c for i, c in enumerate(combos) if i % 17 == chk.seed % 17]
                 for c in combos: yield c
 
@@ -206,6 +206,17 @@ def run(chk):
                 comp.filters.add(fset[1:])
                 r3 = got(lambda: comp.query([fset[0]]))
                 if r3 != want: return (f'composite#{sname}', f'{sname}: composite-attached {fset[1:]} + query {fset[:1]} returned {r3}, reference {want}', {'filters': repr(fset)})
+                # a composite inside a composite: filters attached to the outer one reach the leaves for query, all_versions and get alike
+                inner = CompositeDataSource(); inner.add_data_source(MemorySource(stix_data=mem._data, _store=True) if sname == 'memory' else FileSystemSource(os.path.join(tmp, 'fs')))
+                outer = CompositeDataSource(); outer.add_data_source(inner); outer.filters.add(fset[1:])
+                r4 = got(lambda: outer.query([fset[0]]))
+                if r4 != want: return (f'composite#{sname}:nested', f'{sname}: outer composite with {fset[1:]} attached + query {fset[:1]} through a nested composite returned {r4}, reference {want}', {'filters': repr(fset)})
+                if len(fset) > 1:
+                    for oid in sorted({o['id'] for o in pop})[:4]:
+                        wa = expect(fset[1:], [o for o in pop if o['id'] == oid])
+                        ra = got(lambda: outer.all_versions(oid))
+                        if wa != 'error' and ra != 'error' and ra != wa:
+                            return (f'composite#{sname}:nested all_versions', f'{sname}: outer composite with {fset[1:]} attached; all_versions({oid}) through a nested composite returned {ra}, reference {wa}', {'filters': repr(fset)})
                 # FilterSet object re-used across two sources must stay what the caller built
                 qs = FilterSet(list(fset[:1])); before = list(qs)
                 got(lambda: src.query(qs))
@@ -229,7 +240,7 @@ def run(chk):
                         return (f'get#{sname}', f'{sname}: attached {fset[1:]}; get({oid}) returned {rg}, reference {wg}', {})
             return None
         chk.bounded('end-to-end: filter sets x stores x routes vs reference', list(cases()), check, classify=lambda c: c,
-                    bound=f'{len(pool)} filters, sets of size <= {3 if chk.tier == "thorough" else 2} (size-2: every 3rd, size-3: every 17th combination by seed), 8 objects, memory + filesystem, 4 routes')
+                    bound=f'{len(pool)} filters, sets of size <= {3 if chk.tier == "thorough" else 2} (size-2: every 3rd, size-3: every 17th combination by seed), 8 objects, memory + filesystem, 5 routes (query argument, attached, composite, nested composite, re-used FilterSet)')
         # ---- history: the stores keep answering from their current content (a new version of an id already held, a new id, content written by someone else)
         import stix2 as _s
         newer = _s.v21.Identity(id=ID('identity', 1), name='alpha3', identity_class='individual', created='2020-01-01T00:00:00Z', modified='2020-02-01T00:00:00Z', labels=['a'])
